@@ -150,6 +150,38 @@ def apply_model(m, name, args):
     raise AssertionError(name)
 
 
+def mutables(x, acc=None):
+    """id -> path of every list / dict reachable from x (hidden __x__ keys included)."""
+    acc = {} if acc is None else acc
+    stack = [(x, "$")]
+    while stack:
+        o, path = stack.pop()
+        if isinstance(o, dict):
+            if id(o) in acc:
+                continue
+            acc[id(o)] = path
+            for k, v in o.items():
+                stack.append((v, f"{path}.{k}"))
+        elif isinstance(o, list):
+            if id(o) in acc:
+                continue
+            acc[id(o)] = path
+            for i, v in enumerate(o):
+                stack.append((v, f"{path}[{i}]"))
+    return acc
+
+
+def shared_mutables(a, b):
+    ma, mb = mutables(a), mutables(b)
+    return sorted(ma[i] for i in ma if i in mb)
+
+
+HIDDEN_EXTRA = [("__comments__", {"name": ["# c1", "# c2"], "__type__": "# above"}),
+                ("__position__", {"line": 3, "column": 1, "name": {"line": 4, "column": 5}}),
+                ("__tokens__", [1, [2, {"k": []}]]),
+                ("nested", {"inner": [{"deep": [1]}], "__comments__": {"x": ["# y"]}})]
+
+
 def outcome(f, *a):
     try:
         return ("ret", core.canon(f(*a)))
@@ -163,6 +195,7 @@ class Driver:
         self.res = ctx.res
         self.cls = attach_invariant()
         self.list_keys = vocab.object_list_keys()
+        self.hidden_turn = 0
 
     def fresh(self, factory):
         fac = self.cls if factory else None
@@ -227,6 +260,24 @@ class Driver:
         if list(real) != list(ref) or list(real.keys()) != list(ref.keys()) or \
                 core.canon(list(real.values())) != core.canon(list(ref.values())):
             res.violation("iteration-differs", case, list(real), list(ref))
+        self.copy_kinds(case, real, model, items)
+        if self.hidden_turn % 4 == 0 or len(items) <= 1:
+            # the same copies of a dict that also holds hidden (__x__) entries with mutable values, as dicts returned by
+            # loads(include_comments / include_position) do, and values nested three levels deep
+            real2 = real.copy()
+            m2 = ODModel(model.factory, self.list_keys, copy.deepcopy(items))
+            for k, v in copy.deepcopy(HIDDEN_EXTRA):
+                real2[k] = v
+                m2.setitem(k, copy.deepcopy(v))
+            res.count("hidden_copy_probes")
+            self.copy_kinds(dict(case, hidden=True), real2, m2, list(m2.items()))
+        self.hidden_turn += 1
+        # construction from mapping / pairs / kwargs in mixed case
+        self.ctor_probes(case, factory, items)
+
+    def copy_kinds(self, case, real, model, items):
+        res = self.res
+        cls = self.cls
         before = core.fp(real)
         for kind, mk in (("copy", lambda: real.copy()), ("copy.copy", lambda: copy.copy(real)),
                          ("deepcopy", lambda: copy.deepcopy(real)),
@@ -255,6 +306,10 @@ class Driver:
                                   [o2, core.canon(m2.items())])
                     break
             if kind in ("deepcopy", "pickle", "pickle-p2"):
+                res.count("identity_walks")
+                sh = shared_mutables(real, c)
+                if sh:
+                    res.violation(kind + "-shares-mutable-object", case, sh[:6], "no list or dict of the original reachable from the copy")
                 # mutate every nested mutable of the copy; the original must not notice
                 for v in c.values():
                     if isinstance(v, list):
@@ -264,7 +319,10 @@ class Driver:
             if core.fp(real) != before:
                 res.violation(kind + "-shares-state", case, core.canon(real), "original unchanged")
                 before = core.fp(real)
-        # construction from mapping / pairs / kwargs in mixed case
+
+    def ctor_probes(self, case, factory, items):
+        res = self.res
+        cls = self.cls
         fac = (cls,) if factory else (None,)
         up = [(k.upper(), v) for k, v in items]
         ctors = [("ctor-pairs", lambda: cls(*fac, copy.deepcopy(items))),
@@ -326,6 +384,35 @@ def run(ctx):
                 res.count("list_key_reads")
                 if v != [] or not isinstance(v, list) or list(real.items()) != [(k, [])] or real[k] is not v:
                     res.violation("object-list-key-read", {"key": kk}, core.canon(real), [[k, []]])
+    # dictionaries as the library itself returns them (comments and positions kept: hidden keys with mutable values)
+    if ctx.shard in (0, 1):
+        import mappyfile
+        from .. import corpus
+        texts = [t for _, t in corpus.texts() if "INCLUDE" not in t.upper() and "#" in t and len(t) < 6000]
+        texts = texts[:16 if ctx.quick else 120]
+        for t in texts[ctx.shard::2]:
+            for kw in ({"include_comments": True, "include_position": True}, {"include_comments": True}, {}):
+                try:
+                    d = mappyfile.loads(t, **kw)
+                except Exception:
+                    continue
+                if not isinstance(d, dict):
+                    continue
+                res.count("parsed_dict_probes")
+                case = {"factory": True, "path": [], "text": t[:4000], "kwargs": kw}
+                before = core.fp(d)
+                for kind, mk in (("deepcopy", lambda: copy.deepcopy(d)), ("pickle", lambda: pickle.loads(pickle.dumps(d)))):
+                    try:
+                        c = mk()
+                    except Exception as ex:
+                        res.violation("parsed:" + kind + "-raises", case, type(ex).__name__ + ": " + str(ex), "a copy")
+                        continue
+                    res.count("identity_walks")
+                    if core.fp(c) != before or type(c) is not type(d):
+                        res.violation("parsed:" + kind + "-not-equal", case, core.first_diff(core.canon(d), core.canon(c)), "equal copy")
+                    sh = shared_mutables(d, c)
+                    if sh:
+                        res.violation("parsed:" + kind + "-shares-mutable-object", case, sh[:6], "no shared list or dict")
     # random walks beyond the BFS bound
     r = ctx.rng("walk")
     nwalks = ctx.n(200, 20000)
